@@ -256,7 +256,7 @@ Section RoFS.
     intros Hw. unfold wstep, Wrapper.call_obj, step_ok.
     destruct (olookup (c_obj c) (w_objs w)) as [o|] eqn:Eo.
     - rewrite (Hw _ _ (olookup_in _ _ _ Eo)).
-      destruct (run1_ok (fun cp w' a bind => run_prog base_step T ff (comp_prog cp a) w' (c_obj c) bind [])
+      destruct (run1_ok (comp_cb base_step T ff comp_prog (c_obj c))
                   w o (c_meth c) (c_args c) (c_bind c) Hw) as (H1 & H2 & H3 & H4).
       repeat split; auto; try discriminate.
       intros o' E. inversion E; subst o'. exact H4.
